@@ -14,11 +14,14 @@
 //	log:PATH:TEXT   append TEXT and a newline to PATH (marker / execution log)
 //	cwd:PATH        write the working directory to PATH
 //	sleep:MS        sleep
+//	rw:PATH         rewrite PATH in place with other bytes of the same length, modification time restored
+//	bg:MS:N         leave a background process behind that holds stdout/stderr and writes N bytes to each after MS
 package main
 
 import (
 	"fmt"
 	"os"
+	"os/exec"
 	"path/filepath"
 	"strconv"
 	"strings"
@@ -113,6 +116,20 @@ func main() {
 			_ = os.WriteFile(arg(1), []byte(wd), 0o644)
 		case "sleep":
 			time.Sleep(time.Duration(num()) * time.Millisecond)
+		case "rw":
+			if fi, err := os.Stat(arg(1)); err == nil {
+				if data, err := os.ReadFile(arg(1)); err == nil && len(data) > 0 {
+					for i := range data {
+						data[i] ^= 0x01
+					}
+					_ = os.WriteFile(arg(1), data, fi.Mode().Perm())
+					_ = os.Chtimes(arg(1), fi.ModTime(), fi.ModTime())
+				}
+			}
+		case "bg":
+			child := exec.Command(os.Args[0], "sleep:"+arg(1), "o:"+arg(2), "e:"+arg(2))
+			child.Stdout, child.Stderr = os.Stdout, os.Stderr
+			_ = child.Start()
 		default:
 			fmt.Fprintln(os.Stderr, "emit: unknown op", op)
 			os.Exit(99)
